@@ -238,6 +238,14 @@ class QuicSession:
             logging.warning(f"Could not decrypt Quic Packet: {quic_packet.dcid}")
 
     def packet_isserver(self, packet, dcid):
+        # the addresses decide when they are those of the session: both endpoints may have issued the same
+        # connection id, which then says nothing about the direction (it only matters after a migration)
+        if (packet.ip_src == self.client_ip and packet.sport == self.client_port
+                and packet.ip_dst == self.server_ip and packet.dport == self.server_port):
+            return False
+        if (packet.ip_src == self.server_ip and packet.sport == self.server_port
+                and packet.ip_dst == self.client_ip and packet.dport == self.client_port):
+            return True
         if len(dcid) > 0 and dcid in self.server_cids:
             return False
         elif len(dcid) > 0 and dcid in self.client_cids:
